@@ -129,6 +129,19 @@ impl HeaderPrefix {
         max_table_size: usize,
     ) -> Result<(usize, usize), ParseError> {
         if max_table_size == 0 {
+            // Without a dynamic table there is nothing to reference: a conformant encoder
+            // can only produce a Required Insert Count of 0, and a negative base is invalid
+            // as Required Insert Count <= Delta Base.
+            if self.encoded_insert_count != 0 {
+                return Err(ParseError::InvalidRequiredInsertCount(
+                    self.encoded_insert_count,
+                ));
+            }
+            if self.sign_negative {
+                return Err(ParseError::InvalidBase(
+                    (self.delta_base as isize).wrapping_neg().wrapping_sub(1),
+                ));
+            }
             return Ok((0, 0));
         }
 
